@@ -605,6 +605,14 @@ pub fn check(ctx: &mut Ctx, which: Which) -> i32 {
             return EXIT_VIOLATION;
         }
     }
+    if which == Which::C15 {
+        if let Some(code) = crate::props::stress::phase(ctx, &acc, "C15") {
+            if code != EXIT_OK {
+                write_evidence(ctx, &acc, rule, ASSUME, 1);
+                return code;
+            }
+        }
+    }
     if which == Which::C14 {
         if let Some(code) = crate::props::c14_l2_hook(ctx, &acc) {
             if code != EXIT_OK {
